@@ -208,6 +208,11 @@ func newIpfsAdder(ctx context.Context, dgs ClusterDAGService, params *api.AddPar
 	if !ok {
 		return nil, fmt.Errorf("unrecognized hash function: %s", params.HashFun)
 	}
+	// CIDv0 only exists for sha2-256: building a node with any other
+	// hash function panics in go-merkledag.
+	if prefix.Version == 0 && hashFunCode != multihash.SHA2_256 {
+		return nil, fmt.Errorf("hash function %s cannot be used with CID version 0 (use version 1)", params.HashFun)
+	}
 	prefix.MhType = hashFunCode
 	prefix.MhLength = -1
 	iadder.CidBuilder = &prefix
